@@ -19,7 +19,7 @@ def main():
     sh(f'git -C /repo worktree add --detach {WT} HEAD')
     res = {}
     only = sys.argv[1:]
-    for d in sorted(OUT.glob('C*/[AB]')):
+    for d in sorted(OUT.glob('C*/[A-F]')):
         name = f'{d.parent.name}/{d.name}'
         if only and not any(name.startswith(o) for o in only):
             continue
@@ -45,7 +45,9 @@ def main():
         print(name, res[name], flush=True)
     sh(f'git -C {WT} checkout -- . && git -C {WT} clean -fdq')
     sh(f'git -C /repo worktree remove --force {WT}')
-    json.dump(res, open('/verif/.work/mutant_validation.json', 'w'), indent=1)
+    old = json.load(open('/verif/.work/mutant_validation.json')) if os.path.exists('/verif/.work/mutant_validation.json') else {}
+    old.update(res)
+    json.dump(old, open('/verif/.work/mutant_validation.json', 'w'), indent=1)
 
 
 main()
